@@ -28,6 +28,10 @@ def parse_op(s):
     if m: return {"AtomUnsyncLoad": {"a": int(m[1])}}
     m = re.match(r"^c(\d+)\.(read|write)$", s)
     if m: return {("CellRead" if m[2] == "read" else "CellWrite"): {"c": int(m[1])}}
+    m = re.match(r"^m(\d+)\.(get_mut|into_inner)$", s)
+    if m: return {("MtxGetMut" if m[2] == "get_mut" else "MtxIntoInner"): {"m": int(m[1])}}
+    m = re.match(r"^rw(\d+)\.(get_mut|into_inner)$", s)
+    if m: return {("RwGetMut" if m[2] == "get_mut" else "RwIntoInner"): {"r": int(m[1])}}
     m = re.match(r"^m(\d+)\.(lock|try_lock|unlock|incr|get)$", s)
     if m: return {{"lock": "Lock", "try_lock": "TryLock", "unlock": "Unlock", "incr": "Incr", "get": "Get"}[m[2]]: {"m": int(m[1])}}
     m = re.match(r"^rw(\d+)\.(read|try_read|write|try_write|unlock_r|unlock_w|get)$", s)
